@@ -285,6 +285,11 @@ def check_b(ck, repo):
     feats = sorted(set(_t(p.ret.elts[0]) if isinstance(p.ret, ast.Tuple) and len(p.ret.elts) == 2 else "?" for p in ps if p.ret not in (None, RAISE)))
     ck.verdict(r_none == [f"({X}, None)"] and feats == [X], "C13.b", ptr, f"returns {r_none}; features {feats}", "features untouched on every path, y=None stays None", f"permutation transform returns {r_none} for y=None / features {feats}")
     # label branch: every element of a copy of y is mapped through permutation_
+    from .sem import enumerate_to_index_form, drop_caches
+
+    if any(enumerate_to_index_form(l) for l in own_nodes(ptr.node) if isinstance(l, ast.For)):
+        drop_caches(ptr)
+        ex = expander(repo)
     loops = [l for l in own_nodes(ptr.node) if isinstance(l, ast.For) and isinstance(l.target, ast.Name)]
     lab = prob = None
     for l in loops:
